@@ -47,6 +47,13 @@ def validate(run, tier):
             # Monte-Carlo error (6 standard errors) plus a finite-particle allowance
             if abs(e_m) > 6 * se_m + 0.03 or abs(e_v) > 6 * se_v + 0.06:
                 run.fail("posterior-estimate-biased", f"over {R} seeds: posterior mean error {e_m:+.3f} (se {se_m:.3f}), variance error {e_v:+.3f} (se {se_v:.3f})", **what)
+            if target == "interior":
+                # the same expectations from the default call (trimmed weights) and from equally weighted draws (resample=True)
+                for nm, key in (("posterior() with its default trimming", "var_trim"), ("posterior(resample=True)", "var_res")):
+                    e2, se2 = ens.stats([r[key][1] for r in res], T["var1"])
+                    run.extra["ensemble"][-1][key + "_err"] = [round(e2, 4), round(se2, 4)]
+                    if abs(e2) > 6 * se2 + 0.08:
+                        run.fail("posterior-estimate-biased", f"over {R} seeds: variance estimated from {nm}: error {e2:+.3f} (se {se2:.3f})", **what)
             if target.startswith("periodic"):
                 # the periodic coordinate itself: circular moments of a von Mises (kappa = 2) posterior, mode at phase 0
                 from scipy import special
@@ -197,6 +204,18 @@ def main(tier, seed):
         if abs(e0) > 4 * se0 + 0.01:
             r.fail("hard-boundary-bias-in-posterior", f"posterior abutting a hard prior boundary: mean of the abutting coordinate is off by {e0:+.3f} "
                    f"(se {se0:.3f}) over {len(ok)} seeds", target="edge", cfg=cfg, runs=R, n_particles=64, seeds="5600..")
+        if r.failures:
+            return
+        # ... and where the resampling scheme matters most: systematic resampling into a kernel that does not re-equilibrate quickly
+        for npart2 in (64, 128):
+            cfg2 = dict(clustering=False, sample="rwm", resample="syst")
+            res2 = [x for x in ens.run_ensemble("interior", cfg2, 96, npart2, 5900) if x["ok"]]
+            e2, se2 = ens.stats([x["var"][1] for x in res2], ens.TARGETS["interior"]["var1"])
+            r.extra[f"search_rwm_syst_{npart2}"] = dict(runs=len(res2), var_err=round(e2, 4), se=round(se2, 4))
+            if abs(e2) > 4 * se2 + 0.02:      # clean tree: +0.007 +- 0.006 (N=64), -0.000 +- 0.004 (N=128) for a variance of 0.49
+                r.fail("posterior-estimate-biased", f"rwm + systematic resampling, {npart2} particles, {len(res2)} seeds: posterior variance error {e2:+.3f} (se {se2:.3f})",
+                       target="interior", cfg=cfg2, runs=96, n_particles=npart2, seeds="5900..")
+                return
     run.extra["runs_aborted_by_the_listed_C14_finding"] = list(ens.ABORTED_BY_C14)
     if len(ens.ABORTED_BY_C14) > 8:
         run.fail("too-many-aborted-runs", f"{len(ens.ABORTED_BY_C14)} ensemble runs were aborted by LinAlgError in ModeStatistics.from_particles", runs=ens.ABORTED_BY_C14[:10])
